@@ -14,6 +14,7 @@ package main
 //     clientHandshake;
 //   - resLoadKey: the argument of SessionCache.Get in loadSession; resLoadVerifiesCerts: whether
 //     loadSession refuses (returns no session) when the recorded certificates do not verify;
+//     resLoadClones: whether the handshake gets its own copy of the cached session (F40);
 //   - resServerGuards: the conditions under which checkForResumption returns false, in order;
 //   - resClientResumedExpr: the expression returned by serverResumedSession; resClientChecks:
 //     the conditions of the error returns that follow it in processServerHello;
@@ -191,6 +192,17 @@ func emitResumption(e *emitter, p *pkg) {
 		}
 	}
 	e.boolean("resLoadVerifiesCerts", loadVerifies)
+	// does the handshake work on its own copy of the loaded session (F40 repair)?
+	loadClones := false
+	if fd := p.funcs["Conn.loadSession"]; fd != nil && fd.Body != nil {
+		for _, st := range fd.Body.List {
+			if as, ok := st.(*ast.AssignStmt); ok && len(as.Lhs) == 1 && len(as.Rhs) == 1 &&
+				p.src(as.Lhs[0]) == "session" && p.src(as.Rhs[0]) == "session.clone()" {
+				loadClones = true
+			}
+		}
+	}
+	e.boolean("resLoadClones", loadClones)
 	e.str("resLoadKey", loadKey)
 	if loadKey == "" {
 		miss("resLoadKey")
